@@ -582,7 +582,7 @@ pub fn record(args: &[String]) -> i32 {
                     let a1 = json!({"n": cp(&an), "v": [{"t": "c", "c": 49}]});
                     let a2 = json!({"n": cp(&an), "v": [{"t": "c", "c": 51}]});
                     let mid = json!({"n": cp(&other), "v": [{"t": "c", "c": 50}]});
-                    let attrs = match g.r.gen_range(0..4) {
+                    let attrs = match (i / 96 + 1) % 4 {      // every variant in turn (the family comes round every 96 documents)
                         0 => json!([a1, a2]),
                         1 => json!([a1, mid, a2]),
                         2 => json!([mid, a1, a2]),
